@@ -367,6 +367,8 @@ func (e *Engine) execMapUpdate(s *State, fr *Frame, x *ssa.MapUpdate) {
 	s.addObligation("safety", name, "", x.Pos(), nn, "assignment to entry in nil map")
 	s.assume(nn)
 	e.applyMapUpdateAnchors(s, fr, x, k, v)
+	e.mapLenFacts(s, mt, m, k) // models_coord.go: len >= 0, key present ==> len >= 1
+	e.rangeAliasCheck(s, fr, x, m) // models_coord.go: not the map being ranged over
 	domH, valH, lenH, dk, vk, lk := e.mapParts(s, mt)
 	dom := Select(domH, m)
 	had := Select(dom, k)
@@ -392,6 +394,7 @@ func (e *Engine) execLookup(s *State, fr *Frame, x *ssa.Lookup) {
 		m := s.term(fr, x.X)
 		k := s.term(fr, x.Index)
 		domH, valH, _, _, _, _ := e.mapParts(s, mt)
+		e.mapLenFacts(s, mt, m, k) // models_coord.go: len >= 0, key present ==> len >= 1
 		has := And(Not(Eq(m, IntLit(0))), Select(Select(domH, m), k))
 		raw := Select(Select(valH, m), k)
 		zero, err := s.toTerm(s.zeroValue(mt.Elem()))
@@ -436,6 +439,7 @@ func (e *Engine) execRange(s *State, fr *Frame, x *ssa.Range) {
 	switch mt := x.X.Type().Underlying().(type) {
 	case *types.Map:
 		s.set(fr, x, &rangeIter{isMap: true, mt: mt, m: s.term(fr, x.X)})
+		e.rangeInit(s, x, mt) // models_coord.go: per-loop ghosts (keys seen, count)
 	default:
 		s.set(fr, x, &rangeIter{str: s.term(fr, x.X), pos: IntLit(0)})
 	}
@@ -461,6 +465,7 @@ func (e *Engine) execNext(s *State, fr *Frame, x *ssa.Next) ([]*State, bool) {
 		v := s.fromTerm(e.u.Define("rangeval", vt), it.mt.Elem())
 		e.abstract("range over map: each iteration sees an arbitrary key of the domain (visit-once not modelled)")
 		_ = tt
+		e.rangeNextFacts(s, fr, x, it, okv, kt) // models_coord.go: at-most-once / all-visited facts where sound
 		s.set(fr, x, &Tuple{Vs: []Value{okv, k, v}})
 		return nil, false
 	}
